@@ -272,6 +272,23 @@ pub fn run(ctx: &Ctx) -> i32 {
             }
         }
         if r == 0 {
+            // a valid rendering with surplus / missing pixels, and with neighbouring widths
+            let zero = vec![0x5Au8; sy.total()];
+            let base = ref_bitmap(&refs[si], &zero);
+            for extra in [1usize, 2, sy.cols / 2, sy.cols - 1, sy.cols, sy.cols + 1] {
+                for fill in [false, true] {
+                    let mut px = base.clone();
+                    px.extend(std::iter::repeat(fill).take(extra));
+                    w.check((si * 10 + 4) as u64, || json!({"kind": "pixels", "width": sy.cols, "bits": bits_str(&px)}), |st| eval_pixels(&px, sy.cols, st));
+                }
+                let px = &base[..base.len() - extra.min(base.len())];
+                w.check((si * 10 + 4) as u64, || json!({"kind": "pixels", "width": sy.cols, "bits": bits_str(px)}), |st| eval_pixels(px, sy.cols, st));
+            }
+            for wd in [sy.cols - 1, sy.cols + 1, sy.rows, 2 * sy.cols, sy.cols / 2, 1] {
+                if wd > 0 {
+                    w.check((si * 10 + 4) as u64, || json!({"kind": "pixels", "width": wd, "bits": bits_str(&base)}), |st| eval_pixels(&base, wd, st));
+                }
+            }
             let n = sy.total();
             let mut contents: Vec<Vec<u8>> = vec![vec![0u8; n], vec![0xFF; n], (0..n).map(|i| if i % 2 == 0 { 0xAA } else { 0x55 }).collect()];
             for seed in 1..=ctx.tier.pick(8u64, 64) {
